@@ -107,16 +107,18 @@ class Persist(Family):
         nof = {p["h"]: p["n"] for p in mp}
         plans, seen = [], set()
 
-        def add(h, reached, src, dangle=False):
+        def add(h, reached, src, dangle=False, sd=ctx.seed):
             reached = canon(reached)
-            k = (h, tuple(reached), dangle)
+            k = (h, tuple(reached), dangle, sd)
             if k in seen:
                 return
             seen.add(k)
-            plans.append({"name": "crash-h%d-%s%s" % (h, ".".join(reached) or "none", "-dangle" if dangle else ""), "h": h, "n": nof[h],
-                          "reached": reached, "dangle": dangle, "seed": ctx.seed, "src": src})
-        for p in mp:
-            add(p["h"], p["reached"], "model-state-graph")
+            plans.append({"name": "crash-h%d-%s%s%s" % (h, ".".join(reached) or "none", "-dangle" if dangle else "", "" if sd == ctx.seed else "-s%d" % sd),
+                          "h": h, "n": nof[h], "reached": reached, "dangle": dangle, "seed": sd, "src": src})
+        # thorough: the same crash states on three different reference chains (block contents differ by seed)
+        for sd in ([ctx.seed] if tier != "thorough" else [ctx.seed, ctx.seed + 1, ctx.seed + 2]):
+            for p in mp:
+                add(p["h"], p["reached"], "model-state-graph", sd=sd)
         # write atoms of the real code the model does not know: cover their prefix combinations too
         real = self._probe(ctx, heights)
         for h in heights:
